@@ -292,21 +292,30 @@ func runC06(c *Ctx, r *Report, tier string) {
 		argLoop := c.loopContaining(pa, c.isCallTo("(*parseState).pop"))
 		for _, in := range sites {
 			var extra []string
+			base := map[CtlDep]bool{} // what the whole argument loop depends on gates the parse, not the check
+			if argLoop != nil {
+				for _, d := range c.controlDeps(pa, argLoop.Header) {
+					base[d] = true
+				}
+			}
 			for _, d := range c.controlDeps(pa, in.Block()) {
+				if base[d] {
+					continue
+				}
 				l, ok := c.edgeLit(d.B, d.Succ)
 				if !ok {
 					extra = append(extra, "an unnamed condition at "+c.ipos(d.B.Instrs[len(d.B.Instrs)-1]))
 					continue
 				}
-				if !l.Pos && (strings.HasPrefix(l.Term, "nonnil(parseState.err(") || strings.HasPrefix(l.Term, "nonnil(Parser.internalError(") || l.Term == `nonempty(call:os.Getenv("GO_FLAGS_COMPLETION"))`) {
-					continue // no earlier error, no declaration error, not in completion mode: the parse is running
+				if !l.Pos && strings.HasPrefix(l.Term, "nonnil(parseState.err(") {
+					continue
 				}
 				if argLoop != nil && c.inLoop(argLoop, d.B) { // leaving the argument loop: not a condition on the check itself
 					continue
 				}
 				extra = append(extra, l.String())
 			}
-			r.Check(len(extra) == 0, "GATE", c.fname(pa), "the required check runs on every error-free parse", c.ipos(in), "CD(checkRequired) ⊆ {parseState.err == nil, internalError == nil, not completing}", "checkRequired is called only under "+strings.Join(extra, "; ")+": missing required options are not reported otherwise")
+			r.Check(len(extra) == 0, "GATE", c.fname(pa), "the required check runs on every error-free parse", c.ipos(in), "CD(checkRequired) \\ CD(argument loop) ⊆ {parseState.err == nil}", "checkRequired is called only under "+strings.Join(extra, "; ")+": missing required options are not reported otherwise")
 		}
 		r.Check(len(sites) >= 1, "GATE", c.fname(pa), "checkRequired call found", c.pos(pa.Pos()), "≥ 1", "none")
 	}
